@@ -178,7 +178,7 @@ BYTS = [b"", b"a", b"\xff"]
 
 
 @harness(pre=["0 <= op <= 9", "0 <= vt <= 6", "0 <= et <= 4", "0 <= vs <= 4", "0 <= es <= 4", "0 <= vb <= 2", "0 <= eb <= 2",
-              "(-2 <= vi) & (vi <= 3) & (-2 <= ei) & (ei <= 3)"], post="_", timeout=400,
+              "(-2 <= vi) & (vi <= 3) & (-2 <= ei) & (ei <= 3)"], post="_", timeout=800,
          note="operator x field-type x literal-type matrix (10 operators; field: int / str / bytes / None / tuple / Vector3 / "
               "UUID; literal: int / str / bytes / None / tuple; symbolic ints in [-2,3] and <=1-byte bytes (operands of & / ordering are realized), strs from a 5-entry catalogue since CrossHair's ordering of symbolic strs is inexact) through the real "
               "_val_matches: never raises, and is truthy exactly when the comparison holds under Python semantics (an "
